@@ -240,7 +240,8 @@ pub struct Judge {
     pub ran_in_epoch: HashSet<(Node, u64)>,
     pub violations_c01: Vec<String>,
     pub violations_c03: Vec<String>,
-    /// instances of the recorded finding `c03_projection_changeback` (see known_findings.txt)
+    /// (was: instances of the finding `c03_projection_changeback`, repaired in /repo by 2e5f36f; such executions are
+    /// ordinary C03 violations now, the field stays empty)
     pub known_c03_changeback: Vec<String>,
     /// every value each node's executor returned, with the step at which it did
     pub done_hist: HashMap<Node, Vec<(usize, i64)>>,
@@ -301,7 +302,7 @@ impl Judge {
                             || self.done_hist.get(d).is_some_and(|h| h.iter().any(|(st, v)| *st > since && v != seen)))
                 });
                 if !changed && changeback {
-                    self.known_c03_changeback.push(format!("step {step}: projection {} re-executed by backward projection; its reads {:?} are unchanged since its own last run", n.short(), prev.iter().map(|(d, v)| (d.short(), *v)).collect::<Vec<_>>()));
+                    self.violations_c03.push(format!("step {step}: projection {} re-executed by backward projection; its reads {:?} are unchanged since its own last run", n.short(), prev.iter().map(|(d, v)| (d.short(), *v)).collect::<Vec<_>>()));
                 } else if !changed {
                     self.violations_c03.push(format!("step {step}: {} re-executed although none of its previous reads {:?} changed", n.short(), prev.iter().map(|(d, v)| (d.short(), *v)).collect::<Vec<_>>()));
                 }
